@@ -996,6 +996,9 @@ func (w *World) writerSet(root *ssa.Function) map[*ssa.Function]bool {
 			}
 			all := true
 			for _, e := range n.In {
+				if e.Site != nil && e.Site.Common().StaticCallee() == nil && !w.addressTaken(fn) {
+					continue // class-hierarchy edge from a call through a function value: this function is never used as a value
+				}
 				if !set[e.Caller.Func] {
 					all = false
 				}
@@ -1350,4 +1353,29 @@ func isLoadOfOsArgs(v ssa.Value) bool {
 	}
 	g, ok := u.X.(*ssa.Global)
 	return ok && g.Name() == "Args" && g.Pkg != nil && g.Pkg.Pkg.Path() == "os"
+}
+
+
+// addressTaken: the function is used as a value (not just called) somewhere in the repo.
+func (w *World) addressTaken(fn *ssa.Function) bool {
+	if w.addrTaken == nil {
+		w.addrTaken = map[*ssa.Function]bool{}
+		for _, f := range w.srcFuncs {
+			forEachInstr(f, func(_ *ssa.BasicBlock, ins ssa.Instruction) {
+				var callee ssa.Value
+				if c, ok := ins.(ssa.CallInstruction); ok && !c.Common().IsInvoke() {
+					callee = c.Common().Value
+				}
+				for _, op := range ins.Operands(nil) {
+					if op == nil || *op == nil {
+						continue
+					}
+					if g, ok := (*op).(*ssa.Function); ok && (*op != callee || op != &ins.(ssa.CallInstruction).Common().Value) {
+						w.addrTaken[g] = true
+					}
+				}
+			})
+		}
+	}
+	return w.addrTaken[fn]
 }
